@@ -18,6 +18,7 @@ import (
 	"log"
 	"os"
 	"regexp"
+	"runtime/debug"
 	"sort"
 	"strconv"
 	"strings"
@@ -57,6 +58,13 @@ type tally struct {
 	nontrivial       int64
 	out              map[string]int64
 	outText          map[textKey]int64 // same as out, without building a string per case
+	outPrefix        map[prefixKey]int64
+}
+
+type prefixKey struct {
+	kind      string
+	l, common int
+	isPrefix  bool
 }
 
 type textKey struct {
@@ -66,7 +74,9 @@ type textKey struct {
 	hexLen  int
 }
 
-func newTally() *tally { return &tally{out: map[string]int64{}, outText: map[textKey]int64{}} }
+func newTally() *tally {
+	return &tally{out: map[string]int64{}, outText: map[textKey]int64{}, outPrefix: map[prefixKey]int64{}}
+}
 
 type finding struct{ area, kind, site, class, detail string }
 
@@ -146,6 +156,9 @@ func finish(sc *vk.Scenario, t *tally) {
 	sc.Nontrivial += t.nontrivial
 	for k, n := range t.outText {
 		t.out[fmt.Sprintf("%s/%s/accepted=%v/known=%v/hexlen=%d", classNames[k.cl], k.sub, k.ok, k.okk, k.hexLen)] += n
+	}
+	for k, n := range t.outPrefix {
+		t.out[fmt.Sprintf("%s/len=%d/common=%d/isprefix=%v", k.kind, k.l, k.common, k.isPrefix)] += n
 	}
 	keys := make([]string, 0, len(t.out))
 	for k := range t.out {
@@ -1005,7 +1018,7 @@ func prefixBatch(rn *runner, sc *vk.Scenario, t *tally, r blob.Ref, e ent, cands
 			for common < len(s) && common < len(e.text) && s[common] == e.text[common] {
 				common++
 			}
-			t.out[fmt.Sprintf("%s/len=%d/common=%d/isprefix=%v", e.kind, min(len(s), 80), min(common, 80), strings.HasPrefix(e.text, s))]++
+			t.outPrefix[prefixKey{e.kind, min(len(s), 80), min(common, 80), common == len(s)}]++
 			if t.cases%500009 == 3 {
 				sc.Sample(kase{Kind: "prefix", A: e.text, S: s}.replay())
 			}
@@ -1149,6 +1162,7 @@ func TestCheck(t *testing.T) {
 	if os.Getenv("VERIF_VERBOSE") == "" {
 		log.SetOutput(io.Discard)
 	}
+	debug.SetGCPercent(1000) // live heap is a few MB; the cases allocate short strings at a high rate
 	res := vk.New("C20")
 	res.Rule = "pure input-shape enumeration of package blob's exported functions: complete finite spaces of strings (all short strings over an alphabet; all name-hex strings with every symbol at boundary positions around each digest length), of ref pairs/triples (a pool built from every combination of boundary digests per hash), of (ref, candidate prefix/mutation) pairs, of raw JSON/binary inputs and of byte contents; each case is compared with a 30-line reference definition of ref text. A case is non-trivial when a parser accepted it (text), both refs are of supported hashes (pairs), the candidate derives from a ref of the same family (prefix) or the call produced a ref (encodings, digests); distinct = distinct observed (class, outcome, shape) keys"
 	res.Assumptions = []string{
